@@ -11,31 +11,30 @@
    replaced or deleted.  Inv is the invariant of a tree whose working directory is a
    real directory, whose links below it are lexically confined and whose files below it
    share no inode with the outside; it holds of any tree without links and hard links
-   (C11_example_inv) and is preserved by the store. *)
+   (C11_example_inv) and is preserved by the store (so trees populated by the store itself
+   are covered). *)
 From Oras Require Import Base.Prelude Model.FileConfine Proofs.FileConfine.
 
-(* every sequence of pushes (named blobs and archives to unpack, any titles, any entries,
-   any cwd) leaves everything outside the working directory untouched and keeps the
-   invariant.  Partial: push_ok excludes archives containing a symbolic-link entry named
-   exactly like the unpack directory itself. *)
-Theorem C11_confined_partial :
+(* every sequence of pushes (named blobs and archives to unpack; any titles, any entries
+   of any type, any link targets, any process cwd) leaves everything outside the working
+   directory untouched and keeps the invariant *)
+Theorem C11_confined :
   forall (wd cwd : path) (os : list pushop) (s s' : store) (oks : list bool),
-    Inv wd (st_fs s) -> Forall (push_ok wd) os ->
+    Inv wd (st_fs s) ->
     pushes cfg_fixed wd cwd s os = (s', oks) ->
     Inv wd (st_fs s') /\
     (forall p, inside wd p = false -> view_at (st_fs s') p = view_at (st_fs s) p).
 Proof. exact pushes_keeps. Qed.
-Print Assumptions C11_confined_partial.
+Print Assumptions C11_confined.
 
-(* named blobs: no side condition at all *)
-Theorem C11_blobs_confined :
+(* the entry of the working directory in its parent is not deleted or replaced either *)
+Theorem C11_working_directory_kept :
   forall (wd cwd : path) (os : list pushop) (s s' : store) (oks : list bool),
-    Inv wd (st_fs s) -> Forall is_blob os ->
+    wd <> [] -> Inv wd (st_fs s) ->
     pushes cfg_fixed wd cwd s os = (s', oks) ->
-    Inv wd (st_fs s') /\
-    (forall p, inside wd p = false -> view_at (st_fs s') p = view_at (st_fs s) p).
-Proof. exact pushes_blobs_keeps. Qed.
-Print Assumptions C11_blobs_confined.
+    lookup (st_fs s') wd = Some NDir.
+Proof. exact pushes_wd_kept. Qed.
+Print Assumptions C11_working_directory_kept.
 
 (* a title that lexically resolves outside is rejected with an error and nothing changes
    (for every configuration, repaired or not) *)
@@ -69,32 +68,44 @@ Theorem C11_prefix_refuted : escapes cfg_prefix.
 Proof. exact prefix_escapes. Qed.
 Print Assumptions C11_prefix_refuted.
 
-Theorem C11_prefix_refuted_hardlink_cwd : escapes (mkCfg false true true true true).
+Theorem C11_prefix_refuted_hardlink_cwd : escapes (mkCfg false true true true true true).
 Proof. exact refuted_hardlink_cwd. Qed.
 Print Assumptions C11_prefix_refuted_hardlink_cwd.
 
-Theorem C11_prefix_refuted_raw_link_target : escapes (mkCfg true false true true true).
+Theorem C11_prefix_refuted_raw_link_target : escapes (mkCfg true false true true true true).
 Proof. exact refuted_raw_target. Qed.
 Print Assumptions C11_prefix_refuted_raw_link_target.
 
-Theorem C11_prefix_refuted_unpack_through_link : escapes (mkCfg true true false true true).
+Theorem C11_prefix_refuted_unpack_through_link : escapes (mkCfg true true false true true true).
 Proof. exact refuted_title_through_link. Qed.
 Print Assumptions C11_prefix_refuted_unpack_through_link.
 
-Theorem C11_prefix_refuted_raw_absolute_title : escapes (mkCfg true true true false true).
+Theorem C11_prefix_refuted_raw_absolute_title : escapes (mkCfg true true true false true true).
 Proof. exact refuted_abs_title. Qed.
 Print Assumptions C11_prefix_refuted_raw_absolute_title.
 
-Theorem C11_prefix_refuted_hardlink_to_symlink : escapes (mkCfg true true true true false).
+Theorem C11_prefix_refuted_hardlink_to_symlink : escapes (mkCfg true true true true false true).
 Proof. exact refuted_hardlink_symlink. Qed.
 Print Assumptions C11_prefix_refuted_hardlink_to_symlink.
+
+Theorem C11_prefix_refuted_link_replaces_working_directory :
+  lookup (st_fs (fst (pushes (mkCfg true true true true true false) wd0 cwd0 (mkStore fs1 []) os_replace_wd))) wd0
+  <> Some NDir.
+Proof. exact refuted_replace_wd. Qed.
+Print Assumptions C11_prefix_refuted_link_replaces_working_directory.
 
 (* the hypotheses are satisfiable and the repaired store still accepts ordinary archives *)
 Example C11_example_inv : Inv wd0 fs0.
 Proof. exact inv_fs0. Qed.
 
+Example C11_example_inv1 : Inv wd0 fs1.
+Proof. exact inv_fs1. Qed.
+
+Example C11_example_replace_wd_rejected :
+  pushes cfg_fixed wd0 cwd0 (mkStore fs1 []) os_replace_wd = (mkStore fs1 [], [false]).
+Proof. exact replace_wd_fixed. Qed.
+
 Example C11_example_ordinary :
-  Forall (push_ok wd0) os_ordinary /\
   snd (run0 cfg_fixed os_ordinary) = [true; true; true] /\
   view_at (fst (run0 cfg_fixed os_ordinary)) [b "r"; b "w"; b "t"; b "a"; b "b"; b "f"] = VFile 9%N /\
   view_at (fst (run0 cfg_fixed os_ordinary)) [b "r"; b "w"; b "old"] = VFile 11%N.
